@@ -158,6 +158,7 @@ type bounder struct {
 	// guarded copies: copy(buf[off:], src) under the test len(src) <= len(buf)-off;
 	// off + (its result) is bounded by the length of buf
 	guarded map[*ssa.Call]LinForm
+	depth   int // interprocedural depth (helpers evaluated for their callers)
 }
 
 func newBounder(fn *ssa.Function, upper bool, assume map[string]int64) *bounder {
@@ -453,7 +454,20 @@ func (b *bounder) eval(v ssa.Value) LinForm {
 			}
 			return lfConst(1)
 		}
+		if callee.Blocks != nil && strings.HasPrefix(fnPkgPath(callee), modPath) && b.depth < 3 {
+			return b.evalCallee(x, callee, 0)
+		}
 		return lfTop("call " + calleeName(callee))
+	case *ssa.Parameter:
+		if bt, ok := x.Type().Underlying().(*types.Basic); ok && bt.Info()&types.IsInteger != 0 {
+			return lfTerm("π:" + x.Name())
+		}
+	case *ssa.Extract:
+		if call, ok := x.Tuple.(*ssa.Call); ok {
+			if callee := call.Common().StaticCallee(); callee != nil && callee.Blocks != nil && strings.HasPrefix(fnPkgPath(callee), modPath) && b.depth < 3 {
+				return b.evalCallee(call, callee, x.Index)
+			}
+		}
 	case *ssa.Phi:
 		if b.open[x] {
 			return lfTerm("φ:" + x.Name())
@@ -719,6 +733,67 @@ func (b *bounder) sumElems(f LinForm) LinForm {
 			t = "Σ" + t[:i] + coll + "[*]" + t[i+j+1:]
 		}
 		out = out.add(lfTerm(t).scale(k))
+	}
+	return out
+}
+
+// evalCallee bounds result idx of a call to a repository function by bounding
+// the callee's returned values and expressing them in the caller's terms.
+func (b *bounder) evalCallee(call *ssa.Call, callee *ssa.Function, idx int) LinForm {
+	cb := newBounder(callee, b.upper, nil)
+	cb.depth = b.depth + 1
+	var out LinForm
+	n := 0
+	for _, blk := range callee.Blocks {
+		ret, ok := blk.Instrs[len(blk.Instrs)-1].(*ssa.Return)
+		if !ok || idx >= len(ret.Results) {
+			continue
+		}
+		f := cb.Eval(ret.Results[idx])
+		if n == 0 {
+			out = f
+		} else {
+			out = out.join(f, b.upper)
+		}
+		n++
+	}
+	if n == 0 {
+		return lfTop("callee " + calleeName(callee) + " does not return")
+	}
+	return b.subst(out, callee, call.Common().Args)
+}
+
+// subst rewrites a bound over the callee's parameters into the caller's terms.
+func (b *bounder) subst(f LinForm, callee *ssa.Function, args []ssa.Value) LinForm {
+	if f.Top {
+		return f
+	}
+	out := lfConst(f.C)
+	for t, k := range f.T {
+		done := false
+		for i, p := range callee.Params {
+			if i >= len(args) {
+				break
+			}
+			pn := p.Name()
+			switch {
+			case t == "π:"+pn:
+				out = out.add(b.Eval(args[i]).scale(k))
+				done = true
+			case t == "len("+pn+")":
+				out = out.add(b.lenTerm(args[i]).scale(k))
+				done = true
+			case strings.HasPrefix(t, "len("+pn+"."):
+				out = out.add(lfTerm("len(" + b.pathOf(args[i], 0) + t[len("len("+pn):]).scale(k))
+				done = true
+			}
+			if done {
+				break
+			}
+		}
+		if !done {
+			out = out.add(lfTerm(t).scale(k))
+		}
 	}
 	return out
 }
